@@ -153,8 +153,14 @@ func compareBlock(db *sql.DB, l *model.Ledger, res *model.BlockResult, prev map[
 			if m := prev[a]; m != nil && m[t] != nil {
 				was = m[t]
 			}
-			out = append(out, Mismatch{Height: res.Height, Aspect: "balance", Causes: causes[k],
-				Detail: fmt.Sprintf("%s %s: ledger has %s, expected %s (before the block: %s; expected causes %v)", a.String(), world.TickerNames[t], got, want, was, causes[k])})
+			cs := causes[k]
+			if len(cs) == 0 {
+				// nothing was expected to touch this balance: name what the daemon
+				// recorded as executed at this height for the address
+				cs = dbCauses(db, a, res.Height)
+			}
+			out = append(out, Mismatch{Height: res.Height, Aspect: "balance", Causes: cs,
+				Detail: fmt.Sprintf("%s %s: ledger has %s, expected %s (before the block: %s; causes %v)", a.String(), world.TickerNames[t], got, want, was, cs)})
 		}
 	}
 	for a, m := range l.Bal {
@@ -333,4 +339,48 @@ func ratesImmutable(db *sql.DB, seen map[uint32]string, now uint32) *Mismatch {
 		}
 	}
 	return nil
+}
+
+// dbCauses names the kinds of actions the daemon's own history records as
+// executed at height h involving address a.
+func dbCauses(db *sql.DB, a factom.FAAddress, h uint32) []string {
+	rows, err := db.Query(`SELECT DISTINCT t.action_type, hex(b.entry_hash) FROM pn_history_txbatch b, pn_history_transaction t, pn_history_lookup l
+		WHERE b.entry_hash = t.entry_hash AND l.entry_hash = t.entry_hash AND l.tx_index = t.tx_index AND l.address = ? AND b.executed = ?`, a[:], h)
+	if err != nil {
+		return nil
+	}
+	defer rows.Close()
+	seen := map[string]bool{}
+	var out []string
+	add := func(c string) {
+		if !seen[c] {
+			seen[c] = true
+			out = append(out, c)
+		}
+	}
+	for rows.Next() {
+		var typ int
+		var hsh string
+		if rows.Scan(&typ, &hsh) != nil {
+			continue
+		}
+		switch typ {
+		case 1:
+			add(model.CTransfer)
+		case 2:
+			add(model.CConv)
+		case 4:
+			add(model.CBurn)
+		case 3:
+			switch {
+			case strings.TrimLeft(hsh, "0123456789") == "" && strings.HasPrefix(hsh, "000000"):
+				add(model.CHolder) // mock txid of a scheduled payout
+			case strings.TrimLeft(hsh, "0123456789") == "":
+				add(model.CDev)
+			default:
+				add(model.CMining)
+			}
+		}
+	}
+	return out
 }
